@@ -25,7 +25,7 @@
     side a and side b (introspection probe, chains); the physically reduced schema. *)
 From Coq Require Import List NArith ZArith Bool String.
 From ApiFu Require Import Base.Sexp Feat.FeaturesModel Feat.FeaturesSpec Feat.FeaturesDocModel.
-From ApiFu Require Vld.Ast Feat.FeaturesVld.
+From ApiFu Require Vld.Ast Feat.FeaturesVld Feat.FeaturesExeCheck.
 Import ListNotations.
 Open Scope string_scope.
 
@@ -601,10 +601,26 @@ Definition compare_req (S E : schema) (F G : features) (r : list sexp) : option 
                                           | [l; t] => SL [l; tag "calls" (map SStr (o_calls o)); t]
                                           | _ => SL []
                                           end in
+                    (* C01's executor model on the F-view against the real response: shape of the
+                       data and number of errors, for documents that passed validation *)
+                    let is_valid (o : obs) := match o_verdict o with SL [SSym v] => String.eqb v "valid" | _ => false end in
+                    let n_errors (o : obs) := match o_resp o with
+                                              | SL rl => match field "errors" rl with Some es => List.length es | None => O end
+                                              | _ => O
+                                              end in
+                    let exe_agrees (Sc : schema) (Fs : features) (o : obs) :=
+                      if is_valid o then
+                        match FeaturesExeCheck.exe_model_sdoc Sc Fs d, o_rest o with
+                        | Some (t, n), [_; t'] => sexp_eqb t t' && Nat.eqb n (n_errors o)
+                        | _, _ => false
+                        end
+                      else true in
                     match model_sdoc fixed S F d, model_sdoc fixed E G d with
                     | Some ma, Some mb =>
                         if negb (sexp_eqb ma (seen a)) then Some (v_mismatch "sdoc-full-schema" [ma; seen a])
                         else if negb (sexp_eqb mb (seen b)) then Some (v_mismatch "sdoc-erased-schema" [mb; seen b])
+                        else if negb (exe_agrees S F a) then Some (v_mismatch "C01-executor-model-on-the-F-view-full-schema" [])
+                        else if negb (exe_agrees E G b) then Some (v_mismatch "C01-executor-model-on-the-F-view-erased-schema" [])
                         else None
                     | _, _ => Some (v_mismatch "sdoc-program-forged-a-handle-or-ran-out-of-fuel-or-log-differs-from-trace" [])
                     end
@@ -701,6 +717,7 @@ Definition req_classes (S : schema) (F G : features) (r : list sexp) : list stri
     | Some dl => match dec_sdoc dl with
                  | Some d =>
                      (if valid then "sdoc-valid" else "sdoc-invalid") ::
+                     (if valid then ["sdoc-compared-with-C01-model-on-the-F-view"] else []) ++
                      ((if is_nil (d_frags d) then [] else ["sdoc-with-named-fragments"]) ++
                       (if nodup (map fst (sels_keys (d_sels d) ++ flat_map (fun f => sels_keys (fr_sels f)) (d_frags d))%list)
                        then [] else ["sdoc-with-equal-response-keys"]) ++
